@@ -28,7 +28,8 @@ func init() {
 				"receives the empty cache or a result cache created for it alone, once per engine.",
 			NotCovered: "equality of verdicts with and without caches over all list contents; client-specific modifiers ($client), which the property excludes.",
 			Rules: map[string]string{"C12-R1": "swap+clear in one write-locked section", "C12-R2": "query path read-holds the lock",
-				"C12-R3": "generalised refresh discipline (F9)", "C12-R4": "no per-request data in shared caches (F8)", "C12-R5": "custom engine staleness gate",
+				"C12-R3": "generalised refresh discipline (F9)", "C12-R4": "no per-request data in shared caches (F8)", "C12-R5": "custom engine staleness gate", "C12-R9": "caches store clones and hand out clones (shared with C07-R4)",
+				"C12-R10": "custom rules received from the backend are stamped with the time of reception (time.Now), the only stamp that is newer than every cached engine",
 				"C12-R6": "collision checks", "C12-R7": "cache key dependence and injective packing", "C12-R8": "one result cache per engine"},
 		}})
 }
@@ -42,6 +43,12 @@ func runC12(c *an.Ctx) {
 	c.Floor("C12-R6", 3)
 	c.Floor("C12-R7", 5)
 	c.Floor("C12-R8", 3)
+	c.Floor("C12-R9", 4)
+	c.Floor("C12-R10", 2)
+	// ---- R9: result caches store and hand out copies
+	c07Caches(c, "C12-R9")
+	// ---- R10: every version of a profile's custom rules gets a newer update time
+	c12UpdateTime(c)
 
 	cache := map[*ssa.Function]map[ssa.Instruction]an.Held{}
 	const rl = "filter/internal/rulelist."
@@ -667,4 +674,77 @@ func keyPackingProblems(c *an.Ctx, fn *ssa.Function) (bad []string) {
 	}
 	sort.Strings(bad)
 	return bad
+}
+
+// c12UpdateTime checks the provenance of the update time that invalidates the
+// per-profile custom-filter cache: custom.Filters.get serves a cached engine
+// unless it is older than the configuration's UpdateTime, so every new version
+// received from the backend must carry a time later than the previous
+// version's; the time of reception (time.Now at conversion) is, a time taken
+// from the request (the previous synchronisation's time) is not.
+func c12UpdateTime(c *an.Ctx) {
+	const conv = "backendpb.(*DNSProfile).toInternal"
+	fn := c.Fn(conv)
+	if fn == nil {
+		c.Und("C12-R10", conv, token.NoPos, "anchor not found")
+		return
+	}
+	c.Analysed(conv)
+	// the conversion stores its updTime parameter into ConfigCustom.UpdateTime
+	var pidx = -1
+	for _, fs := range c.FieldStores("filter/internal.ConfigCustom", "UpdateTime") {
+		if fs.In != fn {
+			continue
+		}
+		if pa, ok := an.Unwrap(fs.Val).(*ssa.Parameter); ok {
+			pidx = an.ParamIndex(pa)
+		}
+	}
+	if pidx < 0 {
+		c.Bad("C12-R10", conv+" sets ConfigCustom.UpdateTime", fn.Pos(), "the custom rules' update time is not the conversion's time argument")
+		return
+	}
+	c.Ok("C12-R10", conv+" sets ConfigCustom.UpdateTime", fn.Pos(), "from parameter #%d", pidx)
+	sites, escapes := c.ArgSites(fn, pidx)
+	n := 0
+	for _, s := range sites {
+		if c.IsTestFile(s.Val.Pos()) || (s.Call != nil && c.IsTestFile(s.Call.Pos())) {
+			continue
+		}
+		n++
+		where := "?"
+		var pos token.Pos
+		if s.Call != nil {
+			where, pos = an.FnKey(s.Call.Parent()), s.Call.Pos()
+		}
+		key := where + " update time passed to the profile conversion"
+		var bad []string
+		w := &an.Walker{P: c.Prog, NoFieldJoin: true,
+			Visit: func(v ssa.Value) bool {
+				if call, ok := v.(*ssa.Call); ok && an.CalleeName(call) == "time.Now" {
+					return true
+				}
+				return false
+			},
+			ThroughCalls: func(call *ssa.Call) ([]ssa.Value, bool) {
+				switch an.CalleeName(call) {
+				case "(time.Time).UTC", "(time.Time).Local", "(time.Time).Round", "(time.Time).Truncate":
+					return call.Call.Args[:1], true
+				}
+				return nil, false
+			},
+			Leaf: func(v ssa.Value, why string) {
+				bad = append(bad, fmt.Sprintf("%s (%s) at %s", v.Name(), why, c.Pos(v.Pos())))
+			},
+		}
+		w.Walk(s.Val)
+		if len(bad) > 0 {
+			c.Bad("C12-R10", key, pos, "the update time is not the time of reception: %s; a time that is not later than the previous version's leaves the custom-filter cache serving the old rules", strings.Join(uniq(bad), "; "))
+		} else {
+			c.Ok("C12-R10", key, pos, "time.Now() taken when the profile is received")
+		}
+	}
+	if n == 0 || escapes {
+		c.Und("C12-R10", conv+" call sites", fn.Pos(), "call sites of the conversion cannot be enumerated (%d found, escapes=%v)", n, escapes)
+	}
 }
